@@ -174,6 +174,14 @@ def _relations(draw, ctx):
     tempo = [[0, draw(st.sampled_from([120000, 120000, 10 ** 9, 777]))]]
     if draw(st.integers(0, 3)) == 0:
         tempo.append([draw(st.integers(1, max(1, last_end))), draw(st.sampled_from([60000, 10 ** 9]))])
+    # LONG phrase lists: the block of phrases and notes repeated with shifted ticks
+    if draw(st.integers(0, 9)) == 0:
+        span = max([last_end] + notes) + draw(st.sampled_from([1, 1, 9]))
+        reps = draw(st.sampled_from([10, 40, 130]))
+        p0, n0 = list(phrases), list(notes)
+        for k in range(1, reps):
+            phrases = phrases + [[p[0] + k * span, p[1]] for p in p0]
+            notes = notes + [t + k * span for t in n0]
     return {"phrases": phrases, "notes": notes, "res": draw(st.sampled_from([192, 480, 3, 10 ** 6])), "tempo": tempo,
             "fmt": draw(st.one_of(st.just(0), st.just(0), st.integers(1, 10 ** 6)))}
 
